@@ -564,11 +564,14 @@ class Task(object):
 
         if not state:
             states = rps.FINAL
-        if not isinstance(state, list):
+        elif not isinstance(state, list):
             states = [state]
         else:
             states = state
 
+        # like `TaskManager.wait_tasks`: wait for the *earliest* of the given
+        # states - any later state implies that the earliest one was passed
+        check_state_val = min([rps._task_state_values[s] for s in states])
 
         if self.state in rps.FINAL:
             # we will never see another state progression.  Raise an error
@@ -582,7 +585,8 @@ class Task(object):
             return self.state
 
         start_wait = time.time()
-        while self.state not in states:
+        while self.state not in rps.FINAL and \
+              rps._task_state_values[self.state] < check_state_val:
 
             time.sleep(0.1)
 
